@@ -182,6 +182,9 @@ func (s *syncer) SyncAny(discoveryTime time.Duration, retryHook func()) (sm.Stat
 			defer chunks.Close() // in case we forget to close it elsewhere
 		}
 
+		// Remember who offered the snapshot: a peer that disconnects while the
+		// app decides must still be rejected if the app answers REJECT_SENDER.
+		senders := s.snapshots.GetPeers(snapshot)
 		newState, commit, err := s.Sync(snapshot, chunks)
 		switch {
 		case err == nil:
@@ -213,7 +216,7 @@ func (s *syncer) SyncAny(discoveryTime time.Duration, retryHook func()) (sm.Stat
 		case errors.Is(err, errRejectSender):
 			s.logger.Info("Snapshot senders rejected", "height", snapshot.Height, "format", snapshot.Format,
 				"hash", snapshot.Hash)
-			for _, peer := range s.snapshots.GetPeers(snapshot) {
+			for _, peer := range append(senders, s.snapshots.GetPeers(snapshot)...) {
 				s.snapshots.RejectPeer(peer.ID())
 				s.logger.Info("Snapshot sender rejected", "peer", peer.ID())
 			}
